@@ -13,20 +13,20 @@ open Pff.Layout
 
 /-- Each block written either equals the input block, or matches the stored hash, or passes the
 ecc check together with the parity the decoder returned. -/
-theorem C04_block (O : Ops) (fast : Bool) (b : AsmBlock) :
-    (processBlock O fast b).1 = b.msg ∨ O.H (processBlock O fast b).1 = b.hash ∨
-      ∃ e', O.chk b.k (processBlock O fast b).1 e' = true := by
-  rcases processBlock_cases O fast b with h | h | ⟨m', e', _, hc, h⟩
+theorem C04_block (O : Ops) (fast : Bool) (mbs : Nat) (b : AsmBlock) :
+    (processBlock O fast mbs b).1 = b.msg ∨ O.H (processBlock O fast mbs b).1 = b.hash ∨
+      ∃ e', O.chk b.k (processBlock O fast mbs b).1 e' = true := by
+  rcases processBlock_cases O fast mbs b with h | h | ⟨m', e', _, hc, h⟩
   · exact Or.inl (by rw [h])
   · exact Or.inl (by rw [h])
   · rw [h]
-    rcases hc with hc | hc
+    rcases hc with hc | ⟨hc, _⟩
     · exact Or.inr (Or.inl hc)
     · exact Or.inr (Or.inr ⟨e', hc⟩)
 
 /-- A block that still matches its stored hash is never altered in the default checking mode. -/
-theorem C04_intact_untouched (O : Ops) (b : AsmBlock) (h : O.H b.msg = b.hash) :
-    processBlock O true b = (b.msg, .intact) := by
+theorem C04_intact_untouched (O : Ops) (mbs : Nat) (b : AsmBlock) (h : O.H b.msg = b.hash) :
+    processBlock O true mbs b = (b.msg, .intact) := by
   have hn : needsRepair O true b = false := by
     simp only [needsRepair, h, ne_eq, not_true_eq_false, decide_false, Bool.not_true,
       Bool.false_and, Bool.or_false]
@@ -35,13 +35,27 @@ theorem C04_intact_untouched (O : Ops) (b : AsmBlock) (h : O.H b.msg = b.hash) :
   rfl
 
 /-- A block reported unrepairable is copied through unchanged. -/
-theorem C04_failed_copied (O : Ops) (fast : Bool) (b : AsmBlock)
-    (h : (processBlock O fast b).2 = .failed) : (processBlock O fast b).1 = b.msg := by
-  rcases processBlock_cases O fast b with h1 | h1 | ⟨m', e', _, _, h1⟩
+theorem C04_failed_copied (O : Ops) (fast : Bool) (mbs : Nat) (b : AsmBlock)
+    (h : (processBlock O fast mbs b).2 = .failed) : (processBlock O fast mbs b).1 = b.msg := by
+  rcases processBlock_cases O fast mbs b with h1 | h1 | ⟨m', e', _, _, h1⟩
   · rw [h1]
   · rw [h1]
   · rw [h1] at h
     cases h
+
+/-- With an incomplete stored ecc (truncated ecc file) the ecc check alone never commits a block:
+what is written is the input block or a value matching the stored hash. -/
+theorem C04_truncated_ecc_needs_hash (O : Ops) (fast : Bool) (mbs : Nat) (b : AsmBlock)
+    (h : eccComplete mbs b = false) :
+    (processBlock O fast mbs b).1 = b.msg ∨ O.H (processBlock O fast mbs b).1 = b.hash := by
+  rcases processBlock_cases O fast mbs b with h1 | h1 | ⟨m', e', _, hc, h1⟩
+  · exact Or.inl (by rw [h1])
+  · exact Or.inl (by rw [h1])
+  · rw [h1]
+    rcases hc with hc | ⟨_, he⟩
+    · exact Or.inr hc
+    · rw [h] at he
+      cases he
 
 /-- decoders return a message of the length they were given (the only thing assumed of them) -/
 def DecLen (O : Ops) : Prop := ∀ k m e m' e', O.dec k m e = some (m', e') → m'.length = m.length
@@ -53,7 +67,7 @@ theorem C04_length_header (O : Ops) (hlen : DecLen O) (fast : Bool) (thr k hashL
     (h : (correctHeaderFile O fast thr k hashLen mbs readLen content track).output = some out) :
     out.length = content.length := by
   rw [correctHeaderFile_output O fast thr k hashLen mbs readLen content track out h,
-    List.length_append, header_body_length O hlen, List.length_drop]
+    List.length_append, header_body_length O hlen fast mbs thr, List.length_drop]
   have := assembleHeader_msgs_length k hashLen mbs readLen content track (content.length + 1) 0 0
   simp only [List.length_take] at this
   omega
@@ -65,7 +79,7 @@ theorem C04_length_whole (O : Ops) (hlen : DecLen O) (fast : Bool) (thr : Nat) (
     out.length = content.length := by
   rw [correctWholeFile_output O fast thr kOf hashLen mbs content track out h,
     List.length_append, List.length_drop]
-  have h1 := whole_body_length_le O hlen fast thr
+  have h1 := whole_body_length_le O hlen fast mbs thr
     (assemble kOf hashLen mbs content track (content.length + 1) 0 0)
   have h2 := assemble_msgs_length kOf hashLen mbs content track (content.length + 1) 0 0
   omega
@@ -79,24 +93,24 @@ theorem C04_blockwise_header (O : Ops) (fast : Bool) (thr k hashLen mbs readLen 
     ∃ ws : List Bytes, ws.length = blocks.length ∧
       out = ws.flatten ++ content.drop ((blocks.map (·.msg)).flatten).length ∧
       ∀ i (hi : i < blocks.length), ws[i]? = some blocks[i].msg ∨
-        ws[i]? = some (processBlock O fast blocks[i]).1 := by
+        ws[i]? = some (processBlock O fast mbs blocks[i]).1 := by
   intro blocks
-  have hle := runLoop_written_length_le O fast thr blocks
-  refine ⟨(runLoop O fast thr blocks).written ++
-    (blocks.drop (runLoop O fast thr blocks).written.length).map (·.msg), ?_, ?_, ?_⟩
+  have hle := runLoop_written_length_le O fast mbs thr blocks
+  refine ⟨(runLoop O fast mbs thr blocks).written ++
+    (blocks.drop (runLoop O fast mbs thr blocks).written.length).map (·.msg), ?_, ?_, ?_⟩
   · simp only [List.length_append, List.length_map, List.length_drop]
     omega
   · exact correctHeaderFile_output O fast thr k hashLen mbs readLen content track out h
   · intro i hi
-    by_cases hiw : i < (runLoop O fast thr blocks).written.length
+    by_cases hiw : i < (runLoop O fast mbs thr blocks).written.length
     · right
-      obtain ⟨b, hb, hw⟩ := runLoop_written_getElem? O fast thr blocks i hiw
+      obtain ⟨b, hb, hw⟩ := runLoop_written_getElem? O fast mbs thr blocks i hiw
       rw [List.getElem?_eq_getElem hi, Option.some.injEq] at hb
       rw [List.getElem?_append_left hiw, hw, hb]
     · left
       rw [List.getElem?_append_right (by omega), List.getElem?_map, List.getElem?_drop,
-        show (runLoop O fast thr blocks).written.length +
-          (i - (runLoop O fast thr blocks).written.length) = i by omega,
+        show (runLoop O fast mbs thr blocks).written.length +
+          (i - (runLoop O fast mbs thr blocks).written.length) = i by omega,
         List.getElem?_eq_getElem hi]
       rfl
 
@@ -108,20 +122,20 @@ theorem C04_blockwise_whole (O : Ops) (fast : Bool) (thr : Nat) (kOf : Nat → N
     let blocks := assemble kOf hashLen mbs content track (content.length + 1) 0 0
     ∃ ws : List Bytes, ws.length ≤ blocks.length ∧
       out = ws.flatten ++ content.drop ws.flatten.length ∧
-      ∀ i, i < ws.length → ∃ b, blocks[i]? = some b ∧ ws[i]? = some (processBlock O fast b).1 := by
+      ∀ i, i < ws.length → ∃ b, blocks[i]? = some b ∧ ws[i]? = some (processBlock O fast mbs b).1 := by
   intro blocks
-  refine ⟨(runLoop O fast thr blocks).written, runLoop_written_length_le O fast thr blocks, ?_, ?_⟩
+  refine ⟨(runLoop O fast mbs thr blocks).written, runLoop_written_length_le O fast mbs thr blocks, ?_, ?_⟩
   · exact correctWholeFile_output O fast thr kOf hashLen mbs content track out h
   · intro i hi
-    exact runLoop_written_getElem? O fast thr blocks i hi
+    exact runLoop_written_getElem? O fast mbs thr blocks i hi
 
 /-- A file in which some processed block was reported unrepairable is never counted as completely
 repaired (both tools)… -/
-theorem C04_failed_not_complete (O : Ops) (fast : Bool) (thr : Nat) (blocks : List AsmBlock)
-    (i : Nat) (hi : i < blocks.length) (hproc : i < (runLoop O fast thr blocks).written.length)
-    (hf : (processBlock O fast blocks[i]).2 = .failed) :
-    (runLoop O fast thr blocks).partialFail = true := by
-  exact runLoop_partialFail O fast thr blocks i hi hproc hf
+theorem C04_failed_not_complete (O : Ops) (fast : Bool) (mbs thr : Nat) (blocks : List AsmBlock)
+    (i : Nat) (hi : i < blocks.length) (hproc : i < (runLoop O fast mbs thr blocks).written.length)
+    (hf : (processBlock O fast mbs blocks[i]).2 = .failed) :
+    (runLoop O fast mbs thr blocks).partialFail = true := by
+  exact runLoop_partialFail O fast mbs thr blocks i hi hproc hf
 
 /-- … and a run with a corrupted file that is not completely repaired exits non-zero. -/
 theorem C04_exit (rs : List FileResult) (hwf : ∀ r ∈ rs, r.complete = true → r.corrupted = true)
